@@ -66,7 +66,7 @@ def main():
           for p in ALL if p not in CHECKS]
     m = {
         "version": 1,
-        "setup_cmd": "cd /verif/harness && CARGO_NET_OFFLINE=true cargo build --offline",
+        "setup_cmd": "cd /verif && CARGO_NET_OFFLINE=true python3 checks/lib/runner.py build",
         "hooks": {
             "guard": "cargo feature `verif` of the risinglight crate (all hook code is under #[cfg(feature = \"verif\")])",
             "enable": "the harness crate /verif/harness depends on risinglight by path (/repo) with features=[\"verif\"]; every check first runs `cargo build --offline` there, which rebuilds /repo's current working tree",
